@@ -377,3 +377,88 @@ def k_hidden_stem_list(eng):
 
     r = run_kernel(eng, "19.f/B/hidden-stem-list", "19.f", "all 12 branches", build, None, replay)
     return _finish(r, holder["ctx"]) if "ctx" in holder else r
+
+
+def k_day_nine_star(eng, route, early):
+    """flying nine star of the day (日家九星): from the Jiazi day nearest the winter solstice the star ascends one per day from 一白 (index 0),
+    from the Jiazi day nearest the summer solstice it descends one per day from 九紫 (index 8); a run lasts until the next turning day.
+    'Nearest': a solstice day with pillar index p > 29 takes the next Jiazi day (60 - p days later), otherwise the previous one (p days earlier).
+    early = False: dates on or after the civil year's first turning day; early = True: the dates before it (they belong to the descending run
+    that began at the Jiazi day nearest the PREVIOUS summer solstice).  route: LunarDay | SixtyCycleDay"""
+    from .seasons import install
+    holder = {}
+
+    def build(eng):
+        fn = M.find_fn(eng.fns, "get_nine_star", "&" + route)
+        ctx = _ctx(eng, {})
+        rec = Rec(ctx, "self", route)
+        O = ctx.fresh_value("day_number", "isize")
+        year = ctx.fresh_value("year", "isize")
+        W = ctx.fresh_value("winter_solstice_day", "isize")
+        S = ctx.fresh_value("summer_solstice_day", "isize")
+        W2 = ctx.fresh_value("next_winter_solstice_day", "isize")
+        Sp = ctx.fresh_value("previous_summer_solstice_day", "isize")
+        holder.update(ctx=ctx)
+        day_rec = Rec(ctx, "the_solar_day", "SolarDay")
+        if route == "SixtyCycleDay":
+            fields = struct_fields(os.path.join(REPO, "src/tyme/sixtycycle.rs"), "SixtyCycleDay")
+            rec.fields[fields.index("solar_day")] = day_rec
+
+        def termday(ykey, idx):
+            if ykey == year.s and idx in (0, 12, 24, -12):
+                return {0: W, 12: S, 24: W2, -12: Sp}[idx]
+            raise Unsupported("unexpected term (%s, %d)" % (ykey, idx))
+        install(ctx, day_rec, O, year, termday)
+        model = ctx.model
+        base = model.call
+
+        def call(c, fr, callee, args, path):
+            if callee in ("LunarDay::get_solar_day", "SixtyCycleDay::get_solar_day"):
+                a0 = model.deref(c, args[0])
+                if a0 is rec:
+                    return True, day_rec
+            return base(c, fr, callee, args, path)
+        model.call = call
+        paths = ctx.run(fn, [("refrec", rec)])
+
+        def nearest(t):
+            p = "(mod (+ %s 49) 60)" % t        # 07.c
+            return "(+ %s (ite (> %s 29) (- 60 %s) (- %s)))" % (t, p, p, p)
+        A, N, A2, Np = nearest(W.s), nearest(S.s), nearest(W2.s), nearest(Sp.s)
+        pre = ["(<= 2 %s 9998)" % year.s, "(<= 1721424 %s 5373000)" % W.s, "(<= 170 (- %s %s) 195)" % (S.s, W.s), "(<= 170 (- %s %s) 195)" % (W2.s, S.s), "(<= 170 (- %s %s) 195)" % (W.s, Sp.s),
+               "(<= (+ %s 1) %s (+ %s 390))" % (W.s, O.s, W.s)]
+        pre.append("(< %s %s)" % (O.s, A) if early else "(>= %s %s)" % (O.s, A))
+        if early:
+            spec = "(mod (- 8 (- %s %s)) 9)" % (O.s, Np)
+            holder["known"] = "(mod (+ 8 (- %s %s)) 9)" % (A, O.s)
+        else:
+            spec = "(ite (< %s %s) (mod (- %s %s) 9) (ite (< %s %s) (mod (- 8 (- %s %s)) 9) (mod (- %s %s) 9)))" % (O.s, N, O.s, A, O.s, A2, O.s, N, O.s, A2)
+
+        def posts(p):
+            return [("star", "(= %s %s)" % (p.ret.idx.s, spec))]
+        holder.update(paths=paths, pre=pre)
+        return ctx, paths, pre, posts, lambda p: _kind(p, "NineStar")
+
+    def replay(eng, model):
+        nat = eng.native("day_nine_star_scan", 1 if early else 0, 0 if route == "LunarDay" else 1)
+        if nat in ("NONE", "PANIC", "UNKNOWN", ""):
+            return nat == "PANIC", "native scan: " + (nat or "no output")
+        return True, "day nine star off its run: " + nat
+
+    kid = "17.%s/B/day-nine-star%s/%s" % ("i" if early else "h", "-before-first-turning-day" if early else "", route)
+    r = run_kernel(eng, kid, "17.i" if early else "17.h", "every date of a civil year %s its first turning day, solstice days any table 170..195 days apart, every pillar alignment" % ("before" if early else "on or after"),
+                   build, None, replay)
+    if early and r["status"] == "failed" and r.get("reproduced") and "paths" in holder:
+        # is this exactly the known behaviour (counting back from the first turning day so that the day before it is 一白)?  decided for all inputs
+        from . import solve
+        ctx = holder["ctx"]
+        qs = []
+        for k, p in enumerate(holder["paths"]):
+            if isinstance(getattr(p, "ret", None), Obj):
+                qs.append(("known/%d" % k, holder["pre"] + [c.s for c in p.pc], "(not (= %s %s))" % (p.ret.idx.s, holder["known"]), []))
+        final, stats, _ = solve.decide(ctx.inputs, qs)
+        r["characterisation"] = {"queries": len(qs), "all_hold": all(v["verdict"] == "holds" for v in final.values()),
+                                 "what": "on every path the reported star equals (8 + first turning day - date) mod 9"}
+        if qs and r["characterisation"]["all_hold"]:
+            r["role"] = "day-nine-star-before-the-first-turning-day-counts-back-from-it"
+    return _finish(r, holder["ctx"]) if "ctx" in holder else r
